@@ -7,6 +7,7 @@ require (
 	github.com/ava-labs/avalanchego v1.13.1-rc.0.0.20250414210208-c8b3f57d2a25
 	github.com/ava-labs/hypersdk v0.0.0-00010101000000-000000000000
 	github.com/ava-labs/hypersdk/examples/morpheusvm v0.0.0-00010101000000-000000000000
+	github.com/cockroachdb/pebble v0.0.0-20230928194634-aa077af62593
 	github.com/prometheus/client_golang v1.16.0
 )
 
@@ -19,7 +20,6 @@ require (
 	github.com/cespare/xxhash/v2 v2.3.0 // indirect
 	github.com/cockroachdb/errors v1.9.1 // indirect
 	github.com/cockroachdb/logtags v0.0.0-20230118201751-21c54148d20b // indirect
-	github.com/cockroachdb/pebble v0.0.0-20230928194634-aa077af62593 // indirect
 	github.com/cockroachdb/redact v1.1.3 // indirect
 	github.com/cockroachdb/tokenbucket v0.0.0-20230807174530-cc333fc44b06 // indirect
 	github.com/getsentry/sentry-go v0.18.0 // indirect
